@@ -140,6 +140,11 @@ def writeContextList (u : Option String) (ctxs : List ContextCalibrator) : LoadM
     | .ok xs => .ok [mkEl u "ContextCalibratorList" [] xs]
     | .error e => .error e
 
+/-- `bytes.hex()`: two lower-case hexadecimal digits per byte. -/
+def hexDigit (n : Nat) : Char := if n < 10 then Char.ofNat (48 + n) else Char.ofNat (87 + n)
+
+def bytesToHex (t : Bytes) : String := String.ofList (t.flatMap (fun b => [hexDigit (b.toNat / 16), hexDigit (b.toNat % 16)]))
+
 def writeEncoding (u : Option String) : Encoding → LoadM XmlNode
   | .num e => do
     let d ← writeDefaultCal u e.cals.default
@@ -160,9 +165,7 @@ def writeEncoding (u : Option String) : Encoding → LoadM XmlNode
       then [mkEl u "LeadingSize" [("sizeInBitsOfSizeTag", toString (e.leadingSize.getD 0))] []] else []
     let term := match e.termChar with
       | some t => if t.isEmpty then [] else
-        [mkEl u "TerminationChar" [] [] (some (String.ofList (t.flatMap (fun b =>
-          let h := fun (n : Nat) => if n < 10 then Char.ofNat (48 + n) else Char.ofNat (87 + n)
-          [h (b.toNat / 16), h (b.toNat % 16)]))))]
+        [mkEl u "TerminationChar" [] [] (some (bytesToHex t))]
       | none => []
     let sizeEl := match sizeEl with
       | .elem n t a tx c => XmlNode.elem n t a tx (c ++ lead ++ term)
